@@ -4024,6 +4024,10 @@ impl CanonicalizeContext {
 	
 		// We essentially have 'terminator( mrow terminator)'
 		//   in other words, we have an extra mrow with one child due to the initial start -- remove it
+		// badly formed input (e.g., "|" directly followed by ")") can leave entries whose priority stopped the reduction -- finish the job
+		while parse_stack.len() > 1 {
+			self.reduce_stack_one_time(&mut parse_stack);
+		}
 		let mut top_of_stack = parse_stack.pop().unwrap();
 		assert_eq!(parse_stack.len(), 0);
 	
